@@ -598,9 +598,13 @@ def extract_ex(text: str) -> Tuple[Dict[str, Any], Set[str]]:
         elif isinstance(node, ast.AnnAssign) and isinstance(node.target, ast.Name):
             consts.append(node.target.id)
             ann = node.annotation
-            if isinstance(ann, ast.Subscript) and isinstance(ann.value, ast.Name) and ann.value.id == "Set" and isinstance(ann.slice, ast.Name):
-                if ann.slice.id not in PRIM_SOURCE_NAMES:
-                    sig_refs.append(ann.slice.id)
+            if isinstance(ann, ast.Subscript) and isinstance(ann.value, ast.Name) and ann.value.id == "Set":
+                # the item type may be a name or a forward reference written as a string literal
+                item = ann.slice
+                item_name = item.id if isinstance(item, ast.Name) else (
+                    item.value if isinstance(item, ast.Constant) and isinstance(item.value, str) else None)
+                if item_name is not None and item_name not in PRIM_SOURCE_NAMES:
+                    sig_refs.append(item_name)
             if isinstance(node.value, ast.Call):
                 for kw in node.value.keywords:
                     if kw.arg == "description":
